@@ -63,6 +63,8 @@ def run(pid, tier, seed):
         from . import seq_props
         seq_props.collect_specs(res, symlink.build_ctors())
     res.obligations = driver.select(res.obligations, pid)
+    from . import deps
+    deps.add(res, pid)
     if not res.obligations and not res.struct:
         res.faults.append("no obligations generated")
         return res
